@@ -26,7 +26,8 @@ Definition cons_opt (x : option state) (l : list state) : R (list state) :=
 
 (* a goal as the stream operators use it: how to run it on a state, how the model names the suspended Bind of it over a
    thunk, and how the model names the suspension of the goal itself at a state (the model is defunctionalised) *)
-Record sgoal : Type := mkSGoal { sg_run : state -> stream; sg_bind : thunk -> thunk; sg_thunk : state -> thunk }.
+Record sgoal : Type := mkSGoal { sg_run : state -> stream; sg_bind : thunk -> thunk; sg_thunk : state -> thunk;
+                               sg_goal : goal; sg_env : env }.
 
 (* s.state of a cell: nil for an immature cell; a nil dereference on nil *)
 Definition cell_state (s : stream) : R (option state) :=
@@ -61,3 +62,17 @@ Definition susp_goal (g : sgoal) (s : option state) : R stream :=
 (* s.Counter, s.Substitutions: a nil dereference on a nil state *)
 Definition st_counter (s : option state) : R N := match s with Some st => Ret (ctr st) | None => Panic end.
 Definition st_subst (s : option state) : R subst := match s with Some st => Ret (sub st) | None => Panic end.
+
+(* ---- ifThenElseLoop / onceLoop (mini/ifthenelse.go, mini/once.go) ---- *)
+
+(* Suspension(func() { return ifThenElseLoop(g2, g3, s, cdr) }) after `car, cdr := x.CarCdr()` with car == nil: x is an immature
+   cell and cdr is what its suspension returned, so the closure is "run x's thunk, then loop": the model's TIfte over the thunk
+   of x.  The model's thunk carries the two goals as terms closed in ONE environment (that of GIfte); sg_goal / sg_env say which. *)
+Definition susp_self_ifThenElseLoop (g2 g3 : sgoal) (s : option state) (x : stream) : R stream :=
+  match x, s with
+  | SSusp th, Some st => Ret (SSusp (TIfte th (sg_goal g2) (sg_goal g3) (sg_env g2) st))
+  | SErr, _ => OOF_
+  | _, _ => Panic
+  end.
+Definition susp_self_onceLoop (x : stream) : R stream :=
+  match x with SSusp th => Ret (SSusp (TOnce th)) | SErr => OOF_ | _ => Panic end.
